@@ -772,6 +772,111 @@ def _tensor_NS(d, tier):
     return st.sampled_from((quick if tier == 'quick' else thor)[d])
 
 
+# ---------------------------------------------------------------------------
+# complex base points: for a holomorphic program (a polynomial with complex coefficients) the drivers return the complex
+# derivatives.  Reference: term-by-term differentiation of the monomials in complex128 (no Taylor arithmetic involved).
+
+@st.composite
+def complex_cases(draw):
+    N = draw(st.integers(1, 4))
+    M = draw(st.integers(1, 2))
+    cplx = st.builds(complex, st.integers(-4, 4).map(lambda k: k / 2.0), st.integers(-4, 4).map(lambda k: k / 2.0))
+    outs = []
+    for _ in range(M):
+        terms = []
+        for _ in range(draw(st.integers(1, 4))):
+            e = draw(st.lists(st.integers(0, 3), min_size=N, max_size=N).filter(lambda l: 1 <= sum(l) <= 5))
+            c = draw(cplx.filter(lambda z: z != 0))
+            terms.append((c, e))
+        outs.append(terms)
+    x = [draw(cplx) for _ in range(N)]
+    if draw(st.integers(0, 3)) == 0:
+        x = [complex(z.real, 0.0) for z in x]          # complex dtype, real values
+    v = [draw(cplx) for _ in range(N)]
+    return {'N': N, 'outs': outs, 'x': x, 'v': v, 'scalar_out': M == 1 and draw(st.booleans())}
+
+
+def _cx_run(case, x):
+    ys = []
+    for terms in case['outs']:
+        acc = 0
+        for c, e in terms:
+            t = c
+            for j, k in enumerate(e):
+                if k == 1:
+                    t = t * x[j]
+                elif k > 1:
+                    t = t * x[j] ** k
+            acc = acc + t
+        ys.append(acc)
+    if case['scalar_out']:
+        return ys[0]
+    y = algopy.zeros(len(ys), dtype=x) if isinstance(x, UTPM) else np.zeros(len(ys), dtype=complex)
+    for i, yi in enumerate(ys):
+        y[i] = yi
+    return y
+
+
+def _cx_mono(c, e, z, drop):
+    """c * d/dz_drop[0] d/dz_drop[1] ... of z^e"""
+    e = list(e)
+    for j in drop:
+        if e[j] == 0:
+            return 0j
+        c = c * e[j]
+        e[j] -= 1
+    r = complex(c)
+    for j, k in enumerate(e):
+        r *= z[j] ** k
+    return r
+
+
+def _cx_jac(case):
+    z, N = case['x'], case['N']
+    return np.array([[sum(_cx_mono(c, e, z, [j]) for c, e in terms) for j in range(N)] for terms in case['outs']])
+
+
+def _cx_hess(case, i=0):
+    z, N = case['x'], case['N']
+    return np.array([[sum(_cx_mono(c, e, z, [j, k]) for c, e in case['outs'][i]) for k in range(N)] for j in range(N)])
+
+
+def _cx_close(got, ref, what):
+    got, ref = np.asarray(got), np.asarray(ref)
+    if got.shape != ref.shape:
+        raise Violation('%s: shape %s, expected %s' % (what, got.shape, ref.shape))
+    if ref.size and not np.all(np.abs(got - ref) <= 1e-10 * max(1.0, float(np.max(np.abs(ref))))):
+        raise Violation('%s: got %r, term-by-term complex differentiation gives %r' % (what, got.tolist(), ref.tolist()))
+
+
+def prop_complex(case, stats):
+    N = case['N']
+    x = np.array(case['x'], dtype=complex)
+    v = np.array(case['v'], dtype=complex)
+    J = _cx_jac(case)
+    Jr = J[0] if case['scalar_out'] else J
+    y = guard(lambda: _cx_run(case, UTPM.init_jacobian(x)))
+    _cx_close(guard(UTPM.extract_jacobian, y), Jr, 'extract_jacobian(f(init_jacobian(x))), complex x')
+    y = guard(lambda: _cx_run(case, UTPM.init_jac_vec(x, v)))
+    _cx_close(guard(UTPM.extract_jac_vec, y), Jr.dot(v), 'extract_jac_vec(f(init_jac_vec(x, v))), complex x and v')
+    if case['scalar_out']:
+        H = _cx_hess(case)
+        y = guard(lambda: _cx_run(case, UTPM.init_hessian(x)))
+        _cx_close(guard(UTPM.extract_hessian, N, y), H, 'extract_hessian(N, f(init_hessian(x))), complex x')
+        y = guard(lambda: _cx_run(case, UTPM.init_hess_vec(x, v)))
+        _cx_close(guard(UTPM.extract_hess_vec, N, y), H.dot(v), 'extract_hess_vec(N, f(init_hess_vec(x, v))), complex x and v')
+
+
+def _cx_nt(case):
+    return case['N'] >= 2 and any(sum(1 for k in e if k) >= 2 for terms in case['outs'] for c, e in terms) \
+        and any(z.imag != 0 for z in case['x'])
+
+
+def _cx_cl(case):
+    return ['N=%d' % case['N'], 'outputs=%s' % ('scalar' if case['scalar_out'] else len(case['outs'])),
+            'imaginary-parts' if any(z.imag != 0 for z in case['x']) else 'complex-dtype-real-values']
+
+
 def buckets(tier):
     q = lambda a, b: {'quick': a, 'thorough': b}
     bl = [
@@ -788,6 +893,7 @@ def buckets(tier):
         Bucket('smooth:hessian', lambda: smooth_cases('hessian'), prop_smooth_hessian, q(50, 250), nontrivial=_nt_smooth,
                classes=_cl_smooth, shards=q(2, 6), weight=15.0),
     ]
+    bl.append(Bucket('complex-point', complex_cases, prop_complex, q(150, 1500), nontrivial=_cx_nt, classes=_cx_cl))
     for d in (1, 2, 3):
         bl.append(Bucket('smooth:tensor:d=%d' % d, (lambda d=d: smooth_cases('tensor', d=d)), prop_smooth_tensor, q(30, 200),
                          nontrivial=_nt_smooth, classes=_cl_smooth, shards=q(1, 4), weight=10.0 * d))
